@@ -319,7 +319,7 @@ theorem fmLineS_nil (gR gI : Bytes → Res Nat) : fmLineS gR gI [] = .ok none :=
 theorem fm_lineFormat {conv : Conv} {gR gI gQ : Bytes → Res Nat} {gC : Bytes → Res (Nat × Nat)}
     (hL : conv.LocalWith gR gI gQ gC) (iw mode : Nat) :
     LineFormat (fun _ => true) (fmRows Fixes.repaired conv iw mode) (fmRecS gR gI iw mode) :=
-  LineFormat.ofBlockEq (fm_block_eq hL iw mode)
+  LineFormat.ofBlockEq (fun t _ hb => fm_block_eq hL iw mode t (by have := codeLines_length t; omega))
     (fun L => by simp [fmRecS, fmLineS, pairS_strip])
     (by simp [fmRecS, fmLineS_nil, Except.map])
     (Or.inr (fun L r h => by
